@@ -234,6 +234,21 @@ def do_action(mc, md, drv, act):
         mc.copy(src, mc if grp == "/" else mc[grp], name=name)
         md.cp(src, dst)
         return mc, None
+    if kind == "cp_src_obj":  # source given as a node object
+        src, dst = act[1], act[2]
+        if src not in md.tree or dst in md.tree:
+            return mc, None
+        mc.copy(mc[src], dst)
+        md.cp(src, dst)
+        return mc, None
+    if kind == "sub_cp":  # copy through a sub-group handle with a relative target
+        grp, src, dst = act[1], act[2], act[3]
+        asrc, adst = grp + "/" + src, grp + "/" + dst
+        if md.tree.get(grp) != "g" or asrc not in md.tree or adst in md.tree:
+            return mc, None
+        mc[grp].copy(src, dst)
+        md.cp(asrc, adst)
+        return mc, None
     if kind == "rm_root":  # the root cannot be deleted: refused, and nothing (in particular no metadata) is lost
         try:
             del mc["/"]
@@ -292,6 +307,21 @@ def check_user_view(mc, md):
                 rv = None
             if rv is not None and rv != kids:
                 return ("reversed() listing differs", p, rv, kids)
+    # membership like on a plain tree: nothing exists below a dataset, the root exists, absent names are absent
+    for p, k in md.tree.items():
+        probes = [(p, True), (p + "/zz", False)] + ([("/" + p, True)] if True else [])
+        for q, want in probes:
+            try:
+                got = q in mc
+            except Exception as e:  # noqa
+                return ("membership test raised", q, type(e).__name__)
+            if got != want:
+                return ("membership differs from the plain tree", q, got, want)
+    try:
+        if ("/" in mc) is not True or ("zz/q" in mc) is not False:
+            return ("membership of the root / of an absent nested path differs from the plain tree",)
+    except Exception as e:  # noqa
+        return ("membership test raised", "/", type(e).__name__)
     top = sorted(q for q in md.tree if "/" not in q)
     if sorted(mc.keys()) != top:
         return ("root listing differs", sorted(mc.keys()), top)
@@ -514,6 +544,11 @@ def run_seq(drvname, actions, init=0):
     mc["g/e"] = 2
     md.tree.update({"d": "d", "g": "g", "g/e": "d"})
     md.val.update({"d": 1, "g/e": 2})
+    if init == 2:  # mirrored names: g/g/e2 exists while g/e2 is free (absolute vs relative resolution in sub-groups)
+        mc.create_group("g/g")
+        mc["g/g/e2"] = 3
+        md.tree.update({"g/g": "g", "g/g/e2": "d"})
+        md.val["g/g/e2"] = 3
     if init:
         for act in INIT_META:
             mc, prob = do_action(mc, md, drv, act)
